@@ -1201,7 +1201,12 @@ class mulgrid(object):
         self.clear_layers()
         from copy import deepcopy
         for lay in geo.layerlist: self.add_layer(deepcopy(lay))
-        for col in self.columnlist: self.set_column_num_layers(col)
+        ground = self.layerlist[0].bottom
+        for col in self.columnlist:
+            # a surface kept from the old layering is only the default
+            # one (not written to file) if it is at the new ground level:
+            if col.surface != ground: col.default_surface = False
+            self.set_column_num_layers(col)
         self.setup_block_name_index()
         self.setup_block_connection_name_index()
 
